@@ -190,6 +190,7 @@ def _entry_points(ctx):
             ctx.ob("R3", "main-block|cli", s.loc(), "python -m conda_content_trust.cli: the value of cli() %s sys.exit" % ("is passed to" if reached else "does NOT reach"), reached)
         if not flows:
             ctx.ob("R3", "main-block|cli|nocall", m.relpath, "the __main__ block of cli.py does not call cli()", False)
+    _names_bound_before_main(ctx, m, CallGraph(prog))
     mm = prog.by_short.get("__main__")
     if mm is None:
         ctx.ob("R3", "package-main|missing", "conda_content_trust/__main__.py", "the package has no __main__.py (python -m conda_content_trust does not work)", False)
@@ -202,6 +203,71 @@ def _entry_points(ctx):
         if not flows:
             ctx.ob("R3", "package-main|nocall", mm.relpath, "__main__.py does not call cli()", False)
     ctx.floor("R3.entry_points", 3)
+
+
+def _names_bound_before_main(ctx, m, cg):
+    """python -m conda_content_trust.cli runs the `if __name__ == "__main__":` block when the
+    module body reaches it: a module-level name bound only further down does not exist yet when
+    the handlers run (NameError, exit status 1 after the verdict was printed)"""
+    import ast
+
+    prog = ctx.prog
+    body = m.tree.body
+    idx = None
+    for i, st_ in enumerate(body):
+        if isinstance(st_, ast.If) and any(st_.body is b or st_.body == b for b in m.main_blocks):
+            idx = i
+            break
+    if idx is None:
+        return
+
+    def bound(stmts):
+        out = set()
+        for st_ in stmts:
+            for x in ast.walk(st_):
+                if isinstance(x, (ast.FunctionDef, ast.AsyncFunctionDef, ast.ClassDef)):
+                    if x in stmts:
+                        out.add(x.name)
+                elif isinstance(x, ast.Name) and isinstance(x.ctx, ast.Store):
+                    out.add(x.id)
+                elif isinstance(x, (ast.Import, ast.ImportFrom)):
+                    for a in x.names:
+                        out.add((a.asname or a.name).split(".")[0])
+        return out
+
+    def top_level_bound(stmts):
+        # names bound by the statements themselves (not inside nested function bodies)
+        out = set()
+
+        def go(n):
+            if isinstance(n, (ast.FunctionDef, ast.AsyncFunctionDef, ast.ClassDef)):
+                out.add(n.name)
+                return
+            if isinstance(n, ast.Name) and isinstance(n.ctx, ast.Store):
+                out.add(n.id)
+            if isinstance(n, (ast.Import, ast.ImportFrom)):
+                for a in n.names:
+                    out.add((a.asname or a.name).split(".")[0])
+            for ch in ast.iter_child_nodes(n):
+                go(ch)
+
+        for st_ in stmts:
+            go(st_)
+        return out
+
+    late = top_level_bound(body[idx + 1 :]) - top_level_bound(body[:idx])
+    cone = sorted(q for q in cg.cone(["cli.cli"]) if prog.funcs[q].mod is m)
+    bad = []
+    for q in cone:
+        fi = prog.funcs[q]
+        if fi.qualname.split(".")[1] in late and fi.parent is None and fi.cls is None:
+            bad.append("%s is defined after the __main__ block" % q)
+        local = {a.arg for a in fi.node.args.posonlyargs + fi.node.args.args + fi.node.args.kwonlyargs} | {x.id for x in ast.walk(fi.node) if isinstance(x, ast.Name) and isinstance(x.ctx, ast.Store)}
+        for x in ast.walk(fi.node):
+            if isinstance(x, ast.Name) and isinstance(x.ctx, ast.Load) and x.id in late and x.id not in local:
+                bad.append("%s reads %s (line %d), bound only after the __main__ block" % (q, x.id, x.lineno))
+    ctx.count("R3.functions_checked_for_late_names", len(cone))
+    ctx.ob("R3", "main-block|cli|names-bound", prog.site(m, body[idx], "cli.<__main__ block>").loc(), "python -m conda_content_trust.cli: %s" % ("every module-level name the %d reachable functions of cli.py read is bound before the __main__ block runs (%d names are bound after it)" % (len(cone), len(late)) if not bad else "the __main__ block runs before the module body is complete: " + "; ".join(sorted(set(bad)))[:300]), not bad)
 
 
 def thorough(ctx):
